@@ -421,6 +421,19 @@ def gen_c10_one(rng, tier):
                 ops.append("fail %s %d %s" % (call, rng.choice([1, 1, 1, 2, 3]), rng.choice(ERRNOS[call])))
             T += 1
             kind = rng.random()
+            if rng.random() < 0.25:
+                # something the application does from inside the completion callback of this
+                # request, i.e. while read_answers() is still working on the connection the answer
+                # came in on: cancel everything, drop the server, or start a request whose write
+                # fails (the connection is then closed underneath read_answers())
+                cbop = rng.random()
+                if cbop < 0.35:
+                    ops.append("oncb %d cancel" % T)
+                elif cbop < 0.65:
+                    ops.append("oncb %d setservers,%s" % (T, rng.choice(["10.0.0.9", "10.0.0.8:5353", "10.0.0.2"])))
+                else:
+                    ops.append("oncb %d fail,sendto,1,%s" % (T, rng.choice(["EPIPE", "ECONNRESET", "ENETUNREACH"])))
+                    ops.append("oncb %d send,%d,r%dx.example,IN,A,rd" % (T, 500 + T, T))
             if kind < 0.7:
                 ops.append("send %d c%dx.example IN %s rd" % (T, T, rng.choice(["A", "AAAA", "TXT"])))
             elif kind < 0.9:
